@@ -10,8 +10,12 @@ import json, sys, os, shutil
 pid, src, name = sys.argv[1:4]
 txt = open('/tmp/keep_%s.json' % name).read()
 r = json.loads(txt[txt.index('{'):])
+# test_tomtom_homomotifs passes a mis-shaped (5,4) target, tomtom reads out of bounds and the
+# asserted values depend on memory contents: it fails intermittently on the pinned tree as well
+# (7 of 8 isolated runs at 93dd78b), so it cannot count against a seeded change
+FLAKY = {'tests.tools.test_tomtom::test_tomtom_homomotifs'}
 ok = r.get('demo_unchanged_rc') == 0 and r.get('demo_patched_rc') not in (0, None) and r.get('patch_applies') \
-     and r.get('tests_missing_from_baseline') == []
+     and [t for t in (r.get('tests_missing_from_baseline') or ['?']) if t not in FLAKY] == []
 print(name, 'confirmed' if ok else 'NOT confirmed', 'check:', r.get('check_out'))
 if ok:
     d = '/verif/seeded/%s' % name
@@ -23,6 +27,7 @@ if ok:
     json.dump({'property': pid, 'needs_to_manifest': notes[:1500],
                'confirmed': {'demo_unchanged_rc': r['demo_unchanged_rc'], 'demo_patched_rc': r['demo_patched_rc'],
                              'pinned_tests_all_pass_with_patch': True,
+                             'pinned_tests_failing_but_known_flaky': r.get('tests_missing_from_baseline'),
                              'how': 'tools/try_seed.py on a scratch git worktree of /repo HEAD: demo.py before/after git apply, full pinned pytest command compared against BASELINE.json stable_pass, then VERIF_REPO=<worktree> ./check %s quick' % pid},
                'check_result': r.get('check_out'), 'check_rc': r.get('check_rc'), 'replay_excerpt': r.get('replay'),
                'repo_head': os.popen('git -C /repo rev-parse --short HEAD').read().strip()},
